@@ -5,13 +5,24 @@
 
 package sql
 
-//@ ghost netid(int, iface) uuid.UUID
+// netof(ctx, nid): the network the contextualizer assigns to a request context (base network nid);
+// netid(p, ctx): the network of a request on persister p - asked for on every request, never cached
+//@ ghost netof(iface, uuid.UUID) uuid.UUID
+//@ spec netid(p *Persister, ctx context.Context) uuid.UUID = netof(ctx, p.nid)
 //@ spec wfquery(rq *relationtuple.RelationQuery) bool = rq != nil && (rq.Subject == nil || wfsubject(rq.Subject))
 
+// a persister is only built by NewPersister, with its dependencies (assumed, like T8)
+//@ fieldinv sql.Persister.d: val != nil
 //@ func (*Persister).NetworkID
+//@   props C06
+//@   modifies nothing
+//@   requires p != nil
+//@   ensures[C06] the-contextualizer-is-asked-on-every-request: result == netid(p, ctx)
+
+//@ func dependencies.Contextualizer
 //@   trusted
 //@   pure
-//@   ensures result == netid(p, ctx)
+//@   ensures result != nil
 
 //@ func (*Persister).Connection
 //@   trusted
